@@ -79,7 +79,7 @@ func init() {
 	// length fields of the cached variant (ksb[3]); the uncached ones share the first
 	klf := [][2]int{{6, 2}, {8 + siLen + 1, 2}}
 	Register(
-		Entry{Name: "tss/rsa.KeyShare.UnmarshalBinary", Group: "tss", NValid: len(ksb), LenFields: klf,
+		Entry{Name: "tss/rsa.KeyShare.UnmarshalBinary", Group: "tss", Moduli: [][]byte{key.N.Bytes()}, NValid: len(ksb), LenFields: klf,
 			Sizes: []int{len(ksb[0]), len(ksb[3]), 1 << 16, 1<<16 + 8},
 			Call: func(b []byte) {
 				var k tssrsa.KeyShare
@@ -89,7 +89,7 @@ func init() {
 				}
 			},
 			Valid: func(i int) []byte { return ksb[(i+3)%len(ksb)] }},
-		Entry{Name: "tss/rsa.SignShare.UnmarshalBinary", Group: "tss", NValid: len(ssb), LenFields: [][2]int{{6, 2}},
+		Entry{Name: "tss/rsa.SignShare.UnmarshalBinary", Group: "tss", Moduli: [][]byte{key.N.Bytes()}, NValid: len(ssb), LenFields: [][2]int{{6, 2}},
 			Sizes: []int{len(ssb[0]), 1 << 16, 1<<16 + 8},
 			Call: func(b []byte) {
 				var s tssrsa.SignShare
@@ -99,7 +99,7 @@ func init() {
 				}
 			},
 			Valid: func(i int) []byte { return ssb[i%len(ssb)] }},
-		Entry{Name: "tss/rsa.CombineSignShares(decoded-share-first)", Group: "tss", NValid: len(ssb), LenFields: [][2]int{{6, 2}}, Cost: 3,
+		Entry{Name: "tss/rsa.CombineSignShares(decoded-share-first)", Group: "tss", Moduli: [][]byte{key.N.Bytes()}, NValid: len(ssb), LenFields: [][2]int{{6, 2}}, Cost: 3,
 			Call: func(b []byte) {
 				var s tssrsa.SignShare
 				if s.UnmarshalBinary(b) == nil {
@@ -108,7 +108,7 @@ func init() {
 				}
 			},
 			Valid: func(i int) []byte { return ssb[i%len(ssb)] }},
-		Entry{Name: "tss/rsa.CombineSignShares(decoded-share-last)", Group: "tss", NValid: len(ssb), LenFields: [][2]int{{6, 2}}, Cost: 3,
+		Entry{Name: "tss/rsa.CombineSignShares(decoded-share-last)", Group: "tss", Moduli: [][]byte{key.N.Bytes()}, NValid: len(ssb), LenFields: [][2]int{{6, 2}}, Cost: 3,
 			Call: func(b []byte) {
 				var s tssrsa.SignShare
 				if s.UnmarshalBinary(b) == nil {
